@@ -871,6 +871,8 @@ impl<H: NodeHasher> PageWalker<H> {
                 && !self.inhibit_elision;
 
             if elide {
+                #[cfg(nomt_verif)]
+                crate::verif::probe("merkle.page_elided");
                 // The total number of leaves in the subtree of this pages is lower than the threshold.
                 // UNWRAP: The stack has been checked to not be empty.
                 let parent_stack_page = self.stack.last_mut().unwrap();
@@ -933,6 +935,10 @@ impl<H: NodeHasher> PageWalker<H> {
         parent_stack_page.children_leaves_counter = None;
         parent_stack_page.prev_children_leaves_counter = None;
 
+        #[cfg(nomt_verif)]
+        if stack_page.bucket_info.is_none() && !self.reconstruction {
+            crate::verif::probe("merkle.page_promoted");
+        }
         // Toggle as not elide the current page from the parent page.
         let page_id = &stack_page.page_id;
         // It does not overflow for the same reason as above.
@@ -1004,6 +1010,8 @@ pub fn reconstruct_pages<H: nomt_core::hasher::NodeHasher>(
     page_set: &mut impl PageSet,
     ops: impl IntoIterator<Item = (KeyPath, ValueHash)>,
 ) -> Option<impl Iterator<Item = (PageId, Page, PageDiff, u64, u64)>> {
+    #[cfg(nomt_verif)]
+    crate::verif::probe("merkle.reconstruct_pages");
     let subtree_root = page.node(position.node_index());
 
     let page_walker = PageWalker::<H>::new_reconstructor(subtree_root, page_id.clone());
